@@ -47,6 +47,11 @@ pub fn tok_menu() -> Vec<String> {
     for w in [6usize, 7, 8, 14, 15, 16] {
         m.push(format!("|\n{sp}a\n{sp}", sp = " ".repeat(w)));
     }
+    // percent-escaped multi-byte characters in tags (positions after them)
+    m.push("!e%C3%A9 ".into());
+    m.push("!<tag:%E2%82%AC> ".into());
+    // a multi-line flow key that stays below 1024 characters with LF but not with CRLF
+    m.push(format!("{{\"{}\": v}}\n", "aaaaaaaaa\n".repeat(101)));
     for s in ["|9", ">1-", "|+", "\"aaaaaaaaaaaa\\x41", "\"aaaaaaaaaaaaaaé", "\"aaaaaaaaaa\\U0001F600", "%YAML 1.2\n", "%TAG !e! tag:e:\n", "---\n", "...\n", "!e!x ", "!<v> ", "&a ", "*a", "\n  ", "\n    ", "# c", "\r\n", "é", "\t", "\""] {
         m.push(s.to_string());
     }
@@ -54,8 +59,14 @@ pub fn tok_menu() -> Vec<String> {
 }
 /// `S-props(K)`: sequences of node-property chunks (two anchor names, tags, aliases) and structure
 pub fn s_props(k: usize) -> StrSpace {
-    let m = ["&a ", "&b ", "!t ", "*a", "*b", "x", "- ", "\n", "[", "]", ", ", ": "];
+    let m = ["&a ", "&b ", "!t ", "!t &a ", "&a !t ", "*a", "*b", "x", "- ", "\n", "[", "]", ", ", ": "];
     StrSpace::chunks(&format!("props^{k}"), m.iter().map(|s| s.to_string()).collect(), k)
+}
+/// `S-dir(K)`: directive lines built from chunks (version numbers at the u32 boundary, handles,
+/// prefixes) followed by document starts
+pub fn s_dir(k: usize) -> StrSpace {
+    let m = ["%YAML ", "%TAG ", "%FOO ", "1", "2", "9999999999", "4294967295", "4294967296", ".", "!e! ", "!! ", "! ", "tag:e: ", "\n", "--- a\n", "--- !e!x a\n", " ", "#c", "...\n"];
+    StrSpace::chunks(&format!("dir^{k}"), m.iter().map(|s| s.to_string()).collect(), k)
 }
 pub fn s_tok(k: usize) -> StrSpace {
     StrSpace::chunks(&format!("tok^{k}"), tok_menu(), k)
